@@ -48,7 +48,10 @@ ClassFields(c) == CASE c = "Q1" -> <<[k |-> "q", tracked |-> TRUE,  name |-> "q"
                     \* QD extends Q1: inherits the tracked field q (offset 0), adds d
                     [] c = "QD" -> <<[k |-> "q", tracked |-> TRUE,  name |-> "q"],
                                      [k |-> "q", tracked |-> FALSE, name |-> "d"]>>
-Classes == {"Q1","Q2","QU","QD","QG","QH"}
+                    \* QM extends Q1 and has a destructor that re-prepares and measures the inherited tracked field
+                    \* (reset q; h(q); measure q): the tracked record is taken after the destructor has run
+                    [] c = "QM" -> <<[k |-> "q", tracked |-> TRUE,  name |-> "q"]>>
+Classes == {"Q1","Q2","QU","QD","QG","QH","QM"}
 Width(k) == IF k = "a" THEN 2 ELSE 1
 
 (* ------------------------------------------------------------------ *)
@@ -113,6 +116,21 @@ DestroyFields(B, cls, fields, idx, rs) ==
                   ELSE B
             b2 == ReleaseAll(b1, my, SubSeq(rs, 1, w))
         IN DestroyFields(b2, cls, Tail(fields), SubSeq(idx, w + 1, Len(idx)), SubSeq(rs, w + 1, Len(rs)))
+
+\* measuring one index inside bundle B (no flag check): sim collapse, both flags, last, log, draw
+MeasureIn(B, i, r) ==
+   LET o == Outcome(B.sim, i, r, DrawExp) IN
+   [B EXCEPT !.sim = MeasureTo(B.sim, i, o), !.evMeas[i] = TRUE, !.last[i] = o,
+             !.ops = Append(B.ops, Op("measure", i, -1, 0, o)), !.draws = Append(B.draws, r)]
+
+\* the user destructor runs first (only QM has one); rs[1] serves its reset and the release, rs[2] its measurement
+DtorOf(B, cls, idx, rs) ==
+   IF cls # "QM" THEN B
+   ELSE LET i  == idx[1]
+            b1 == Unmark(SimReset(B, i, rs[1]), i)
+            b2 == [b1 EXCEPT !.sim = Gate1(b1.sim, "h", i, 0), !.ops = Append(b1.ops, OpM("h", i, 0, 0))]
+        IN MeasureIn(b2, i, rs[2])
+DestroyObj(B, cls, idx, rs) == DestroyFields(DtorOf(B, cls, idx, rs), cls, ClassFields(cls), idx, rs)
 
 TotalWidth(c) == LET f == ClassFields(c) IN
                  IF Len(f) = 1 THEN Width(f[1].k) ELSE Width(f[1].k) + Width(f[2].k)
@@ -187,12 +205,6 @@ CXg(c, t, path) ==
            /\ ops' = Append(ops, Op("cx", IdxOf(c), IdxOf(t), 0, -1))
            /\ UNCHANGED <<evMeas, last, free, vars, depth, trk, echo, draws, halted, done>>
 
-\* measuring one index inside bundle B (no flag check): sim collapse, both flags, last, log, draw
-MeasureIn(B, i, r) ==
-   LET o == Outcome(B.sim, i, r, DrawExp) IN
-   [B EXCEPT !.sim = MeasureTo(B.sim, i, o), !.evMeas[i] = TRUE, !.last[i] = o,
-             !.ops = Append(B.ops, Op("measure", i, -1, 0, o)), !.draws = Append(B.draws, r)]
-
 Measure(r, d, asExpr, path) ==
    /\ Running /\ Len(prog) < MaxLen /\ ValidRef(r)
    /\ Stmt([s |-> "measure", v |-> r[1], e |-> r[2], expr |-> asExpr, path |-> path])
@@ -227,7 +239,7 @@ ResetQ(r, d) ==
 Destroy(i, rs) ==
    /\ Running /\ Len(prog) < MaxLen /\ LiveVar(i) /\ vars[i].k = "obj"
    /\ Stmt([s |-> "destroy", v |-> i])
-   /\ Install(DestroyFields(Bundle, vars[i].cls, ClassFields(vars[i].cls), vars[i].idx, rs))
+   /\ Install(DestroyObj(Bundle, vars[i].cls, vars[i].idx, rs))
    /\ vars' = [vars EXCEPT ![i].live = FALSE]
    /\ UNCHANGED <<depth, echo, halted, done>>
 
@@ -252,7 +264,7 @@ CloseScope(B, rs) ==
        b1   == RecordLocals(B, tr)
    IN IF obs = {} THEN b1
       ELSE LET o == CHOOSE o \in obs : TRUE IN
-           DestroyFields(b1, vars[o].cls, ClassFields(vars[o].cls), vars[o].idx, rs)
+           DestroyObj(b1, vars[o].cls, vars[o].idx, rs)
 ScopeOff == vars' = [i \in 1..Len(vars) |-> IF vars[i].depth = depth THEN [vars[i] EXCEPT !.scope = FALSE, !.live = FALSE] ELSE vars[i]]
 
 CloseBlock(rs) ==
